@@ -7,6 +7,8 @@
 Require Import ZArith List Bool Lia.
 Require Import IW.SAFE.Buf IW.SAFE.Buf_proofs IW.SAFE.Ptr IW.SAFE.Ptr_proofs IW.SAFE.Conv2 IW.SAFE.Conv2_proofs
   IW.SAFE.Unesc IW.SAFE.Unesc_proofs IW.SAFE.Num IW.SAFE.Num_proofs IW.SAFE.Xstr IW.SAFE.Xstr_proofs IW.SAFE.Re IW.SAFE.Re_proofs IW.Gen.Facts.
+Require Import IW.SAFE.Txt IW.SAFE.Ini IW.SAFE.Ini_proofs IW.SAFE.Str IW.SAFE.Str_proofs IW.SAFE.Strto IW.SAFE.Strto_proofs
+  IW.SAFE.Jsk IW.SAFE.Jsk_proofs.
 Import ListNotations. Local Open Scope Z_scope.
 
 (* ---- JSON pointer parser (_jbl_ptr_pool) *)
@@ -188,3 +190,85 @@ Proof. split; [vm_compute; reflexivity|]. split; eexists; vm_compute; repeat spl
 Theorem C17_re_range_expand_8bit_refuted : forall fuel c, byte c -> range_expand ctr_u8 fuel c 255 = Fuel.
 Proof. exact range_expand_u8_loops. Qed.
 Print Assumptions C17_re_range_expand_8bit_refuted.
+
+(* ================= deepening round: the consumers that were only sanitizer-sampled =================
+   Convention as above: `exists r, f x = Ok r` = every index the model touches lies inside the buffer it belongs to
+   (no Oob), no cell is read before it was written (Txt.rdc), and the loop bounds built into the model suffice (no Fuel). *)
+
+(* ---- iwini_parse_string (iwini.c): line[ini_max_line] on the stack (never initialised, reused line by line),
+   section[ini_max_section], prev_name[ini_max_name]; any handler (h e = false: the callback returned 0); ANY bytes *)
+Theorem C17_ini_no_oob_terminates : forall h s, exists rc evs, ini_parse h s = Ok (rc, evs).
+Proof. exact ini_parse_total. Qed.
+Print Assumptions C17_ini_no_oob_terminates.
+(* BOM, section, pair with inline comment, continuation line, a refused name (error = its line number), no `=` *)
+Example C17_ini_ex :
+  ini_query ([239; 187; 191; 91; 115; 93; 10] ++ [107; 32; 61; 32; 118; 32; 59; 99; 10] ++ [32; 119; 10] ++ [33; 97; 61; 49; 10] ++ [120; 10]) =
+    Ok (4, [Ev [115] (Some [107]) (Some [118]); Ev [115] (Some [107]) (Some [119]); Ev [115] (Some [33; 97]) (Some [49])]).
+Proof. vm_compute. reflexivity. Qed.
+
+(* ---- iwpool_split_string (iwpool.c): both arguments C strings; the result array has strlen + 1 slots *)
+Theorem C17_split_no_oob_terminates : forall s cs ws, nz s -> nz cs -> exists r, split (s ++ [0]) (cs ++ [0]) ws = Ok r.
+Proof. exact split_total. Qed.
+Print Assumptions C17_split_no_oob_terminates.
+Example C17_split_ex : split ([32; 97; 44; 32; 98; 32; 44; 44; 99; 32] ++ [0]) ([44] ++ [0]) true = Ok [[97]; [98]; []; [99]].
+Proof. vm_compute. reflexivity. Qed.
+
+(* ---- iwu_uuid_valid (iwuuid.c) *)
+Theorem C17_uuid_no_oob_terminates : forall s, nz s -> exists r, uuid_valid (s ++ [0]) = Ok r.
+Proof. exact uuid_valid_total. Qed.
+Print Assumptions C17_uuid_no_oob_terminates.
+Example C17_uuid_ex : uuid_valid ([48;49;50;51;97;98;99;100;45;56;57;69;70;45;52;97;53;98;45;56;99;55;100;45;48;49;50;51;52;53;54;55;56;57;97;98] ++ [0]) = Ok true
+  /\ uuid_valid ([48; 45] ++ [0]) = Ok false.
+Proof. split; vm_compute; reflexivity. Qed.
+
+(* ---- iwcsv_wrap_line_buffer / iwcsv_column_add / iwcsv_line_flush (iwcsv.h): any buffer length, any columns *)
+Theorem C17_csv_no_oob_terminates : forall len cols, exists r, csv_query len cols = Ok r.
+Proof. exact csv_query_total. Qed.
+Print Assumptions C17_csv_no_oob_terminates.
+(* 48 byte buffer = 16 bytes of data: a , "b""" CR LF fits exactly; in 40 bytes the second column is refused and the line is lost *)
+Example C17_csv_ex : csv_query 48 [[97]; [98; 34]; [44]] = Ok (Some ([true; true; true], Some [97; 44; 98; 34; 34; 44; 34; 44; 34; 13; 10]))
+  /\ csv_query 40 [[97]; [98; 34]; [44]] = Ok (Some ([true; true; false], None)) /\ csv_query 33 [] = Ok None.
+Proof. repeat split; vm_compute; reflexivity. Qed.
+
+(* ---- iw_strtoll & co (iwconv.c): errno is an explicit argument, as for the number branch of the JSON parser *)
+Theorem C17_strto_safe : forall s clears errno, nz s -> exists r, iw_strtoll clears errno (s ++ [0]) = Ok r.
+Proof. exact iw_strtoll_safe. Qed.
+Print Assumptions C17_strto_safe.
+(* full statement, FALSE of the wrappers as they are (fixes/safety-strto-errno.diff):
+   forall e1 e2 p, iw_strtoll false e1 p = iw_strtoll false e2 p *)
+Theorem C17_strto_depends_only_on_input : forall e1 e2 p, iw_strtoll true e1 p = iw_strtoll true e2 p.
+Proof. exact iw_strtoll_errno_indep. Qed.
+Print Assumptions C17_strto_depends_only_on_input.
+Theorem C17_strto_depends_only_on_input_current : fact_strto_clears_errno = true ->
+  forall e1 e2 p, iw_strtoll_current e1 p = iw_strtoll_current e2 p.
+Proof. exact iw_strtoll_errno_current. Qed.
+Print Assumptions C17_strto_depends_only_on_input_current.
+Theorem C17_strto_refuted : exists p, iw_strtoll false 0 p = Ok (WVal 123) /\ iw_strtoll false ERANGE p = Ok WErr.
+Proof. exact iw_strtoll_errno_refuted. Qed.
+Print Assumptions C17_strto_refuted.
+
+(* ---- the JSON / JS-object parser as a whole (iwjser.c), (b): no input makes it exceed a fixed-size resource.
+   It has no fixed-size text buffer (keys and strings are allocated with the measured length); its fixed resource is
+   the C stack: j_frames = the deepest level _jbl_parse_value was ever entered with, j_deep = the deepest node.
+   For both modes and EVERY verdict function of iwstrtod's range test. *)
+Theorem C17_json_parser_bounded : forall js rng s, nz s ->
+  exists out st, jparse js rng (s ++ [0]) = Ok (out, st) /\
+    j_frames st <= JBL_MAX_NESTING_LEVEL + 1 /\ j_deep st <= JBL_MAX_NESTING_LEVEL /\
+    match out with JAt p => 0 <= p <= zlen s | JErr _ => True end.
+Proof. exact jparse_total. Qed.
+Print Assumptions C17_json_parser_bounded.
+(* 1001 opening brackets: 1000 nodes (levels 0..999), the 1001st call is entered with level 1000 and refuses *)
+Example C17_json_parser_bounded_ex :
+  jparse false (fun _ => false) (repeat 91 1001 ++ [0]) = Ok (JErr ENest, mkJ 1000 999 1000) /\
+  jparse true (fun _ => false) ([123; 97; 58; 91; 46; 53; 44; 39; 120; 39; 93; 125] ++ [0]) = Ok (JAt 12, mkJ 4 2 2).
+Proof. split; vm_compute; reflexivity. Qed.
+(* the scanner of iwstrtod: `end` stays inside the text *)
+Theorem C17_strtod_end_safe : forall s, nz s -> exists e, sde_query (s ++ [0]) = Ok e /\ 0 <= e <= zlen s.
+Proof. exact sde_total. Qed.
+Print Assumptions C17_strtod_end_safe.
+(* IWNUMBUF_SIZE (T1): every int64 has at most IWNUMBUF_SIZE - 2 decimal digits, which leaves room for the sign and the
+   terminator in the char buf[IWNUMBUF_SIZE] of the number printers (the index-level proof that iwitoa stays inside
+   that buffer for every int64 is C19_itoa_atoi) *)
+Theorem C17_numbuf_holds_int64 : forall v, - 2 ^ 63 <= v < 2 ^ 63 -> Z.abs v < 10 ^ (IWNUMBUF_SIZE - 2).
+Proof. exact numbuf_holds_int64. Qed.
+Print Assumptions C17_numbuf_holds_int64.
